@@ -7,7 +7,7 @@ a scheduler whose decisions are symbolic ints; CrossHair exhausts the schedules
 within the preemption bound.
 """
 import vlib.env  # noqa: F401
-from vlib.cond import cond, reach
+from vlib.cond import cond, reach, pin, untraced
 from vlib.seqz import core as Z
 from vlib.seqz import prims
 
@@ -30,7 +30,7 @@ def FUNCTIONS():
 
 
 BOUNDS = {'threads': 'quick: 1 watcher x 1 updater (2 updates) and 2 watchers x 1 updater; thorough: 2 watchers x 2 updaters',
-          'preemptions': 'quick: K <= 2 preemptions for 1 watcher x 1 updater, K <= 1 plus two symbolic thread picks for 2 watchers x 1 updater; thorough: K <= 2 / 3; preemption steps range over every step of the run (runs are <= 35 steps), statement-level yields inside the encoded functions, plus the choice of the next thread whenever the running one blocks or ends',
+          'preemptions': 'quick: K <= 2 preemptions for 1 watcher x 1 updater, K <= 1 plus two symbolic thread picks for 2 watchers x 1 updater; thorough: 2 watchers x 1 updater with K <= 2 plus two picks and K <= 3, 2 watchers x 2 updaters with K <= 2 (steps 0..60) plus two picks; preemption steps range over every step of the run (runs are <= 35 steps), statement-level yields inside the encoded functions, plus the choice of the next thread whenever the running one blocks or ends',
           'watcher loop': '<= 3 snapshot/wait iterations'}
 STUBS = ['cooperative Lock/Event (vlib/seqz/prims.py) instead of threading; scheduler with virtual time',
          'WeakSet replaced by a plain set (watchers keep their events alive in the harness)']
@@ -127,25 +127,37 @@ def c_two_watchers_one_updater(p0: int, t0: int, k0: int, k1: int) -> bool:
   return _run(2, 1, 1, [(p0, t0)], [k0, k1, 0, 0])
 
 
-@cond(tiers=('thorough',), timeout=3600, split={'t0': range(3), 't1': range(3), 'k0': range(3)})
-def c_two_watchers_one_updater_k2(p0: int, t0: int, p1: int, t1: int, k0: int) -> bool:
+@cond(tiers=('thorough',), timeout=3600, split={'t0': range(3), 't1': range(3)})
+def c_two_watchers_one_updater_k2(p0: int, t0: int, p1: int, t1: int, k0: int, k1: int) -> bool:
   """
   pre: 0 <= p0 <= 36 and 0 <= t0 <= 2 and p0 <= p1 <= 36 and 0 <= t1 <= 2
-  pre: 0 <= k0 <= 2
+  pre: 0 <= k0 <= 2 and 0 <= k1 <= 2
   post: _
   """
-  return _run(2, 1, 1, [(p0, t0), (p1, t1)], [k0, 0, 0, 0])
+  # schedule ints pinned by bisection, the run itself executes natively (DESIGN 8.1 (v))
+  return untraced(_run, 2, 1, 1, [(pin(p0, 0, 36), pin(t0, 0, 2)), (pin(p1, 0, 36), pin(t1, 0, 2))], [pin(k0, 0, 2), pin(k1, 0, 2), 0, 0])
 
 
-@cond(tiers=('thorough',), timeout=7200, split={'t0': range(4), 't1': range(4), 't2': range(4)})
-def c_two_by_two(p0: int, t0: int, p1: int, t1: int, p2: int, t2: int, k0: int, k1: int) -> bool:
+@cond(tiers=('thorough',), timeout=3600, split={'t0': range(4), 't1': range(4)})
+def c_two_by_two(p0: int, t0: int, p1: int, t1: int, k0: int, k1: int) -> bool:
   """
-  pre: 0 <= p0 <= 60 and p0 <= p1 <= 60 and p1 <= p2 <= 60
-  pre: 0 <= t0 <= 3 and 0 <= t1 <= 3 and 0 <= t2 <= 3
+  pre: 0 <= p0 <= 60 and p0 <= p1 <= 60
+  pre: 0 <= t0 <= 3 and 0 <= t1 <= 3
   pre: 0 <= k0 <= 3 and 0 <= k1 <= 3
   post: _
   """
-  return _run(2, 2, 1, [(p0, t0), (p1, t1), (p2, t2)], [k0, k1, 0, 0])
+  # two watchers x two updaters, two preemptions + two thread picks
+  return untraced(_run, 2, 2, 1, [(pin(p0, 0, 60), pin(t0, 0, 3)), (pin(p1, 0, 60), pin(t1, 0, 3))], [pin(k0, 0, 3), pin(k1, 0, 3), 0, 0])
+
+
+@cond(tiers=('thorough',), timeout=3600, split={'t0': range(3), 't1': range(3), 't2': range(3)})
+def c_two_watchers_one_updater_k3(p0: int, t0: int, p1: int, t1: int, p2: int, t2: int) -> bool:
+  """
+  pre: 0 <= p0 <= 36 and p0 <= p1 <= 36 and p1 <= p2 <= 36
+  pre: 0 <= t0 <= 2 and 0 <= t1 <= 2 and 0 <= t2 <= 2
+  post: _
+  """
+  return untraced(_run, 2, 1, 1, [(pin(p0, 0, 36), pin(t0, 0, 2)), (pin(p1, 0, 36), pin(t1, 0, 2)), (pin(p2, 0, 36), pin(t2, 0, 2))], [0, 0, 0, 0])
 
 
 @cond(timeout=120, expect='refute')
